@@ -15,6 +15,7 @@ Definition winv (w : world) : Prop :=
 Definition op_wf (p : op) : Prop :=
   match p with
   | ORename _ conv _ => NoDup (map fst conv)
+  | OSetItemFrom _ _ _ _ => False      (* storing a column array of one table into another aliases them *)
   | _ => True
   end.
 
@@ -22,7 +23,7 @@ Definition target (p : op) : option nat :=
   match p with
   | OCtor _ _ _ _ _ | OCtorFrom _ _ _ _ | OSelect _ _ => None
   | OSetSel t _ _ | OAppend t _ | OAppendField t _ _ | OSetItem t _ _ | ORemove t _ | ORename t _ _
-  | OTidy t _ | OSort t _ _ | OConvert t _ _ | OSetDtype t _ _ | OIndices t => Some t
+  | OTidy t _ | OSort t _ _ | OConvert t _ _ | OSetDtype t _ _ | OIndices t | OSetItemFrom t _ _ _ => Some t
   end.
 
 (* every table other than the target is the same object and none of its buffers changed *)
@@ -433,6 +434,7 @@ Proof.
     destruct (get_indices (wstore w) o) as [[s' o'] x]; cbn [put_obj fst].
     destruct S as (S1 & S2 & S3 & S4 & S5 & S6). eapply put_inv; try eassumption.
     exists E; split; [assumption|]. destruct L as [L0 L1]; split; [lia|]. rewrite S4, S5; assumption.
+  - destruct WF.
 Qed.
 
 (* ------------------------------------------------------------ all op sequences *)
